@@ -7,6 +7,7 @@ CONSTANTS
   AllowPtr = FALSE
   AllowConstPtr = FALSE
   AllPerms = FALSE
+  ChainMode = FALSE
   Stepwise = FALSE
 INVARIANTS TypeOK
 CHECK_DEADLOCK FALSE
